@@ -465,7 +465,7 @@ class Parallel2dGeometry(ParallelBeamGeometry):
         # Translate the absolute vectors by the given translation
         translation = np.asarray(kwargs.pop('translation', (0, 0)),
                                  dtype=float)
-        det_pos_init += translation
+        det_pos_init = det_pos_init + translation
 
         # Initialize stuff. Normalization of the detector axis happens in
         # the detector class. `check_bounds` is needed for both detector
@@ -694,7 +694,8 @@ class Parallel2dGeometry(ParallelBeamGeometry):
         dpart = part.byaxis[1]
 
         return Parallel2dGeometry(apart, dpart,
-                                  det_pos_init=self.det_pos_init,
+                                  det_pos_init=(self.det_pos_init
+                                                - self.translation),
                                   det_axis_init=self._det_axis_init_arg,
                                   translation=self.translation)
 
@@ -839,7 +840,7 @@ class Parallel3dEulerGeometry(ParallelBeamGeometry):
         # Translate the absolute vectors by the given translation
         translation = np.asarray(kwargs.pop('translation', (0, 0, 0)),
                                  dtype=float)
-        det_pos_init += translation
+        det_pos_init = det_pos_init + translation
 
         # Initialize stuff. Normalization of the detector axis happens in
         # the detector class. `check_bounds` is needed for both detector
@@ -1236,7 +1237,7 @@ class Parallel3dAxisGeometry(ParallelBeamGeometry, AxisOrientedGeometry):
         # Translate the absolute vectors by the given translation
         translation = np.asarray(kwargs.pop('translation', (0, 0, 0)),
                                  dtype=float)
-        det_pos_init += translation
+        det_pos_init = det_pos_init + translation
 
         # Initialize stuff. Normalization of the detector axis happens in
         # the detector class. `check_bounds` is needed for both detector
